@@ -23,7 +23,8 @@
 // again: re-initialisation r uses the initial matrices with columns rotated by r), likfail (K tokens none|measure|
 // predicted|innovation|cov: which call of the measurement model reports failure); Gaussian histories: Hs (3K x d:
 // rows 3k..3k+m_k-1), Rs (3K x 3), ys (K x 3), word ms (K tokens m_k), scale (1 x 1); int seed.
-// meta: exo = 0 | sm | ctor; life_pred / life_corr / life_res = fresh | moved | vector | assigned (how the part handed
+// meta: exo = 0 | sm | ctor; life_pred / life_corr / life_res = fresh | moved | vector | assigned (used_target = 1: the target of the
+// correction's move assignment has performed a correction of its own) (how the part handed
 // to the filter was obtained: hand-written move constructors / assignments), used_* = 1: the source object was used
 // before (words precmd_pred, precmd_corr: commands given to the source; int pre_draws: resampling calls on the source);
 // intrude = 1: inside every callback of the subject's models a twin SIS filter (other data, same shapes) runs a
@@ -50,6 +51,7 @@ using namespace Eigen;
 static long g_step = 0;              // index of the filtering step being executed (over the whole history)
 static const vf::Case* g_case = nullptr;
 static bool g_intrude = false;
+static std::vector<std::shared_ptr<void>> g_keep;
 static std::vector<std::string> g_pre_answers;   // answers to the commands given to the parts before the filter was assembled
 
 static inline void hook() { if (g_intrude) vf::intrude(); }
@@ -341,6 +343,7 @@ static std::unique_ptr<T> obtain_assignable(std::unique_ptr<T> fresh, const std:
         vf::Entry e("move assignment");
         std::unique_ptr<T> s(make_spare());
         *s = std::move(*fresh);
+        g_keep.push_back(std::shared_ptr<T>(fresh.release()));     // the moved-from source stays alive until the end of the case
         return s;
     }
     return obtain<T>(std::move(fresh), life, used, use, make_spare);
@@ -354,7 +357,7 @@ int main() {
         const unsigned seed = (unsigned)c.integer("seed");
         const bool gauss = c.m("likmodel") == "gauss";
         const std::string exo = c.m("exo", "0");
-        g_step = 0; g_lik_calls = 0; g_intrude = false; g_pre_answers.clear();
+        g_step = 0; g_lik_calls = 0; g_intrude = false; g_pre_answers.clear(); g_keep.clear();
         ParticleSet dummy_prev((std::size_t)N, (std::size_t)dl, (std::size_t)dc), dummy_out((std::size_t)N, (std::size_t)dl, (std::size_t)dc);
         dummy_prev.state().setConstant(0.25);
         // the parts that accept any particle count are first used with ANOTHER count (N + 2): nothing may be left behind
@@ -388,7 +391,10 @@ int main() {
             else likm.reset(new ScriptedLikelihood(twin));
             return new BootstrapCorrection(std::unique_ptr<MeasurementModel>(m), std::move(likm));
         };
-        std::unique_ptr<BootstrapCorrection> corr = obtain<BootstrapCorrection>(
+        // life_corr = assigned: the TARGET of the move assignment is a correction built over another, different sensor and
+        // likelihood model (the twin's), with its skip flag set, fresh or (used_target = 1) after a correction of its own;
+        // after  target = std::move(source)  the part handed to SIS must re-weight with the SOURCE's models
+        std::unique_ptr<BootstrapCorrection> corr = obtain_assignable<BootstrapCorrection>(
             std::unique_ptr<BootstrapCorrection>(make_corr(false, &meas)), c.m("life_corr", "fresh"), c.mi("used_corr", 0) != 0,
             [&](BootstrapCorrection& b) {
                 std::vector<std::string> a = issue(tok("precmd_corr", 0, "none"), [&b](const std::string&, bool on) { return b.skip(on); });
@@ -396,7 +402,12 @@ int main() {
                 // a correction on the source: its cached likelihood must not reappear on the object obtained from it
                 b.correct(dummy_prev, dummy_out);
             },
-            [&]() { BootstrapCorrection* s = make_corr(true, nullptr); s->skip(true); return s; });
+            [&]() {
+                BootstrapCorrection* s = make_corr(true, nullptr);
+                if (c.mi("used_target", 0) != 0) { ParticleSet o((std::size_t)N, (std::size_t)dl, (std::size_t)dc); s->correct(dummy_prev, o); }
+                s->skip(true);
+                return s;
+            });
         BootstrapCorrection* bc = corr.get();
 
         // ---- resampling part ----
